@@ -1709,3 +1709,34 @@ def uring_fsync_scenarios(rng):
                     st += [["dump", 0], ["crash", 0], ["dump", 0]]
                     out.append({"cfg": base_cfg(rng, 1), "steps": st, "flavour": "uring-fsync-scenario"})
     return out
+
+
+def multi_host_crash(rng):
+    """Sim-driven: two or three hosts with different histories (unsynced overwrites, never-synced
+    files, unsynced removals), crashed by ONE Sim::crash call through a regex host set or by repeated
+    single calls, hosts registered in either order, bounced, and read back on every host."""
+    n = rng.choice([2, 2, 3])
+    c = gen_safe(rng, stale=0.0, nhosts=n, setup_sync=rng.choice([1, 2, 2]), syncs=0.25, nsteps=rng.randrange(10, 22))
+    steps = [s for s in c["steps"] if s[0] != "crash"]
+    for rnd in range(rng.choice([1, 1, 2])):
+        mode = rng.choice(["regex", "regex", "each"])
+        members = list(range(n))
+        if n == 3 and rng.random() < 0.4:
+            members = sorted(rng.sample(range(3), 2))
+        if mode == "each":
+            rng.shuffle(members)
+            steps += [["crash", h] for h in members]
+        else:
+            rx = "^h" if len(members) == n else "^h[%s]$" % "".join(str(h) for h in members)
+            steps.append(["crash", members[0], "group", rx])
+            steps += [["crash", h, "grouped"] for h in members[1:]]
+        steps += [["dump", h] for h in range(n)]
+        if rnd == 0:
+            for h in range(n):
+                p = rng.choice(FILES)
+                steps += [["open", h, 1, p, "rwc"], ["write_at", h, 1, 0, rand_bytes(rng)]]
+                if rng.random() < 0.5:
+                    steps += [["sync_all", h, 1], ["sync_dir", h, parent(p)]]
+    cfg = dict(c["cfg"])
+    cfg.update({"via": "sim", "block_size": None, "sync_prob": 0.0, "reg_rev": rng.random() < 0.5})
+    return {"cfg": cfg, "steps": steps, "flavour": "multi-host-crash+Sim::crash"}
